@@ -3,7 +3,9 @@ EXTENDS Cli
 S(i, c, f, o) == [input |-> i, channel |-> c, format |-> f, own |-> o, out |-> "stdout"]
 SO(i, c, f, o, w) == [input |-> i, channel |-> c, format |-> f, own |-> o, out |-> w]
 \* every situation of one invocation (C19)
-Owns == {"none", "json", "csv", "both", "jsonfirst"}
+\* "escape": the file defines a report whose file name leads out of the output directory ("../x"); "badname": one whose
+\* file name the library refuses -- whatever other reports the file defines, the command emits its own report and leaves no trace
+Owns == {"none", "json", "csv", "both", "jsonfirst", "escape", "badname"}
 Raw == {S(i, c, f, o) : i \in {"missing", "directory", "empty", "blank", "syntax", "model", "ok"},
                         c \in {"path", "dash", "stdin"}, f \in {"json", "csv"}, o \in Owns}
 \* a missing path / a directory cannot arrive over stdin; a whitespace-only FILE is not "empty input" for the
@@ -13,10 +15,11 @@ AllSits == {s \in Raw : /\ ~(s.input \in {"missing", "directory"} /\ s.channel \
            \cup {SO(i, c, f, o, w) : i \in {"ok", "syntax"}, c \in {"path", "stdin"}, f \in {"json", "csv"}, o \in {"none", "both"},
                                       w \in {"newfile", "exists", "force", "baddir", "brokenpipe"}}
            \* input that is not UTF-8, CRLF line ends, a report definition the library refuses by calling sys.exit
-           \cup {S(i, c, f, o) : i \in {"undecodable", "crlf", "libexit"}, c \in {"path", "dash", "stdin"}, f \in {"json", "csv"}, o \in {"none", "both"}}
-           \cup {SO(i, "path", "json", "none", w) : i \in {"undecodable", "libexit"}, w \in {"newfile", "brokenpipe"}}
+           \cup {S(i, c, f, o) : i \in {"undecodable", "crlf"}, c \in {"path", "dash", "stdin"}, f \in {"json", "csv"}, o \in {"none", "both"}}
+           \cup {SO(i, "path", "json", "none", w) : i \in {"undecodable"}, w \in {"newfile", "brokenpipe"}}
 \* three concurrent processes (C20): a representative mix incl. failing ones
 ConcSits == {S("ok", "path", "json", "json"), S("ok", "stdin", "json", "none"), S("syntax", "path", "csv", "both"),
              S("empty", "stdin", "json", "none"), SO("ok", "path", "csv", "csv", "exists"),
-             S("undecodable", "path", "json", "none"), S("libexit", "stdin", "csv", "none"), SO("ok", "path", "json", "none", "brokenpipe")}
+             S("undecodable", "path", "json", "none"), S("ok", "stdin", "csv", "badname"), SO("ok", "path", "json", "none", "brokenpipe"),
+             S("ok", "path", "json", "escape")}
 =======================================================================================
